@@ -1802,8 +1802,12 @@ def impl_diff(case):
 def flat_diff(case, o):
     if o['diff'][0] != 'ok' or len(dict(case['old'])) != len(case['old']) or len(dict(case['new'])) != len(case['new']):
         return None
-    out = [len(o['diff'][1])]
-    for a, op, vals in o['diff'][1]:
+    return f_mods(o['diff'][1])
+
+
+def f_mods(mods):
+    out = [len(mods)]
+    for a, op, vals in mods:
         code = {'MODIFY_ADD': 0, 'MODIFY_REPLACE': 1, 'MODIFY_DELETE': 2}.get(op)
         if code is None or not _ascii(a):
             return None
@@ -1811,7 +1815,10 @@ def flat_diff(case, o):
         if code != 2:
             out.append(len(vals))
             for x in vals:
-                out += f_eval(x)
+                f = f_eval(x)
+                if f is None:
+                    return None
+                out += f
     return out
 
 
@@ -1832,6 +1839,130 @@ def oracle_diff(case, o):
         return ('ldap-diff-does-not-yield-new', 'old %r + diff %r = %r, new entry is %r (attributes %r differ)'
                 % (case['old'], o['diff'][1], o['after'], case['new'], sorted(bad)))
     return None
+
+
+# ---- the update path: create(o1) then update(o2) through _dict_2_entry, _diff_entries, LDAP modify, read back
+UPD_SCHEMAS = [('CellAllocation', '_schema'), ('Partition', '_schema'), ('Application', '_schema'),
+               ('Application', '_svc_schema'), ('Application', '_endpoint_schema'), ('Partition', '_limit_schema'),
+               ('CellAllocation', 'schema()')]
+
+
+def gen_typed_fval(rng, code):
+    tv = gen_fval(rng, code, False)
+    while 'n' in tv:
+        tv = gen_fval(rng, code, False)
+    return tv
+
+
+def gen_ldap_update(rng, malformed):
+    cname, aname = UPD_SCHEMAS[rng.randrange(len(UPD_SCHEMAS))]
+    sch = ldap_schema(cname, aname)
+    rows = []
+    for _a, f, t in sch:
+        if f is not None and f not in [r[0] for r in rows]:
+            rows.append((f, _tcode(t)))
+    o1 = [[f, gen_typed_fval(rng, c)] for f, c in rows if rng.random() < 0.75]
+    d1 = dict(o1)
+    o2 = []
+    for f, c in rows:
+        r = rng.random()
+        if r < 0.45:
+            continue                                   # not mentioned in the update: must stay as it is
+        if r < 0.72:
+            o2.append([f, {'n': None}])                # emptied: the way the code base clears an attribute
+        elif r < 0.80 and f in d1:
+            o2.append([f, d1[f]])                      # same value again
+        elif r < 0.86 and f in d1 and c in ('ls', 'li') and len(d1[f][c]) > 1:
+            o2.append([f, {c: list(reversed(d1[f][c]))}])      # same value set, other order
+        else:
+            o2.append([f, gen_typed_fval(rng, c)])
+    rng.shuffle(o2)
+    return {'kind': 'ldap_update', 'cls': cname, 'schema': aname, 'obj': o1, 'update': o2}
+
+
+def impl_ldap_update(case):
+    m = mod('treadmill.admin._ldap')
+    sch = ldap_schema(case['cls'], case['schema'])
+    try:
+        # LdapObject.create: entry = _remove_empty(self.to_entry(attrs)) ; admin.create(dn, entry)
+        stored = m._remove_empty(m._dict_2_entry(_py_obj(case['obj']), sch))
+        # LdapObject.update: new_entry = self.to_entry(attrs) ; Admin.update: old = get(dn, plain keys of new)
+        new_entry = m._dict_2_entry(_py_obj(case['update']), sch)
+        wanted = m._entry_plain_keys(new_entry)
+        old_entry = {k: list(v) for k, v in stored.items() if k.split(';', 1)[0] in wanted}
+        diff = m._diff_entries(old_entry, new_entry)
+    except Exception as e:
+        return {'mods': ['err', errcode(e), '%s: %s' % (type(e).__name__, e)]}
+    mods = [[a, op, list(vals)] for a, ops in diff.items() for op, vals in ops]
+    after = _apply_mods(stored, diff)           # the modelled LDAP modify
+    dec = call(m._entry_2_dict, after, sch)
+    return {'mods': ['ok', mods], 'new_entry': _tag_entry(new_entry), 'after': [[k, v] for k, v in after.items()],
+            'dec': ['ok', [[k, _tag_fval(v)] for k, v in dec[1].items()]] if dec[0] == 'ok' else dec}
+
+
+def flat_ldap_update(case, o):
+    if o['mods'][0] != 'ok':
+        return None
+    fm = f_mods(o['mods'][1])
+    if fm is None:
+        return None
+    if o['dec'][0] != 'ok':
+        return [0] + fm + [o['dec'][1]]
+    fo = f_obj(o['dec'][1])
+    return None if fo is None else [0] + fm + [0] + fo
+
+
+def _same_fval_set(a, b):
+    """like _same_fval, list values compared as sets (LDAP attribute values are a set)"""
+    if a is not None and b is not None:
+        (ka, va), = a.items()
+        (kb, vb), = b.items()
+        if ka in ('ls', 'li') and kb == ka:
+            return set(va) == set(vb)
+    return _same_fval(a, b)
+
+
+def oracle_ldap_update(case, o):
+    sch = ldap_schema(case['cls'], case['schema'])
+    rows = {}
+    for _a, f, t in sch:
+        if f is not None:
+            rows.setdefault(f, _tcode(t))
+    first, upd = dict(case['obj']), dict(case['update'])
+    if not all(ldap_typed(rows[f], tv) for d in (first, upd) for f, tv in d.items() if f in rows):
+        return None
+    if o['mods'][0] != 'ok':
+        return ('ldap-update-fails', 'the update path raises %s' % o['mods'][2])
+    if o['dec'][0] != 'ok':
+        return ('ldap-update-roundtrip', '%s: after create %r and update %r the entry %r cannot be read: %s'
+                % (_sname(case), case['obj'], case['update'], o['after'], o['dec'][2]))
+    got = dict(o['dec'][1])
+    not_cleared, wrong = [], []
+    for f, code in rows.items():
+        tv = upd.get(f)
+        if tv is not None and 'n' in tv:                           # emptied by the update
+            if not _same_fval(got.get(f), ldap_expected(code, None)):
+                not_cleared.append(f)
+            continue
+        if tv is None or (code in ('ls', 'li') and not _py_fval(tv)):
+            want = ldap_expected(code, first.get(f))               # not mentioned (an empty list in an update
+        else:                                                      #  dict produces no attribute: left alone)
+            want = ldap_expected(code, tv)
+        if not _same_fval_set(got.get(f), want):
+            wrong.append(f)
+    out = []
+    if not_cleared:
+        out.append(('ldap-update-does-not-clear-emptied-field',
+                    '%s: created %r, updated with %r: fields %r set to None still read back as %r '
+                    '(new entry %r, modifications %r)' % (_sname(case), case['obj'], case['update'], not_cleared,
+                                                          [[f, got.get(f)] for f in not_cleared], o['new_entry'],
+                                                          o['mods'][1])))
+    if wrong:
+        out.append(('ldap-update-roundtrip',
+                    '%s: created %r, updated with %r: fields %r read back as %r (modifications %r)'
+                    % (_sname(case), case['obj'], case['update'], wrong, [[f, got.get(f)] for f in wrong],
+                       o['mods'][1])))
+    return out or None
 
 
 # ---- the per-class wrappers Application / CellAllocation / Partition .to_entry / .from_entry : ORACLE ONLY
@@ -1954,6 +2085,10 @@ KINDS = {
     'diff': dict(gen=gen_diff, impl=impl_diff, flat=flat_diff,
                  term=lambda c, o: '(CDiff %s %s)' % (t_entry(c['old']), t_entry(c['new'])), oracle=oracle_diff,
                  nontrivial=lambda c, o: bool(c['old']) and bool(c['new']), weight=3),
+    'ldap_update': dict(gen=gen_ldap_update, impl=impl_ldap_update, flat=flat_ldap_update,
+                        term=lambda c, o: '(CLdapUpdate %s %s %s)' % (t_str(_sname(c)), t_obj(c['obj']), t_obj(c['update'])),
+                        oracle=oracle_ldap_update,
+                        nontrivial=lambda c, o: any('n' in tv for _f, tv in c['update']) and bool(c['obj']), weight=3),
     'ldap_obj': dict(gen=gen_ldap_obj, impl=impl_ldap_obj, flat=lambda c, o: None, term=lambda c, o: 'CNone',
                      oracle=oracle_ldap_obj, nontrivial=lambda c, o: True, weight=1),
 }
@@ -2056,11 +2191,11 @@ def run(tier, seed):
         'preamble': PREAMBLE, 'run_fn': RUN_FN, 'in_type': 'c15case',
         'gen_case': gen_case, 'impl_run': impl_run, 'expected': expected, 'case_term': case_term,
         'oracle': oracle, 'nontrivial': nontrivial,
-        'n_quick': 4500, 'n_thorough': 30000, 'search_quick': 4000, 'search_thorough': 100000,
+        'n_quick': 4800, 'n_thorough': 30000, 'search_quick': 4000, 'search_thorough': 100000,
         'corpus': 'c15.json',
-        'rule': 'seeded generator (one random.Random(seed)); 20 case kinds (encode+decode and decode-only per codec: '
+        'rule': 'seeded generator (one random.Random(seed)); 21 case kinds (encode+decode and decode-only per codec: '
                 'base-N, gen_uniqueid, unique names, events, event nodes, rule files, ZooKeeper payloads, LDAP '
-                'entries, _diff_entries, LDAP class wrappers) in a fixed weighted rotation; every case is drawn from '
+                'entries, _diff_entries, LDAP create+update+read through the real update path, LDAP class wrappers) in a fixed weighted rotation; every case is drawn from '
                 'the malformed stream with probability 1/4 (inputs outside the stated domain; decoders are fed '
                 'mutated and arbitrary strings); encode cases carry a second nearby value for the injectivity '
                 'oracle; non-trivial = not the empty/zero/default object of its kind',
